@@ -12,7 +12,7 @@
    Inserted generators are list plans (Gen/Paired.v [lplan] without trailing wait).  The message lists are made once,
    so the same Msg objects are yielded at every run of the wrapped plan: content-determined ids ([mk]) are exact here.
 
-   [exp_resume]: the REFERENCE for scripts that only send (every message succeeds): a message m of the wrapped plan
+   [exp_resume]: the REFERENCE (all inputs; for sends:) a message m of the wrapped plan
    that has not been seen before, with [ins m = (pre, post)], is expanded to  pre ++ [m] ++ post ; the answer to m
    itself is what the wrapped plan receives, the answers to the inserted messages are dropped.
    Proofs/During.v: on such scripts the plan_mutator machine with a list-inserting processor is this expansion. *)
@@ -118,15 +118,49 @@ Section During.
     | a :: r => Yielded a (EPost q (e_mark a seen) r saved)
     end.
 
+  (* close() / a thrown GeneratorExit kind: every generator is closed, the host first; its verdict decides *)
+  Definition e_close (q : Q) (e : exn) : outcome estate :=
+    match close_result (qres q Close) with
+    | CloseOk => Raised e
+    | CloseRaised e' => Raised e'
+    | CloseFuel => OutOfFuel
+    end.
+
+  Definition e_host_of (x : estate) : option (Q * list msg) :=
+    match x with
+    | EStart _ => None
+    | EPre q seen _ _ _ => Some (q, seen)
+    | EOwn q seen _ => Some (q, seen)
+    | EPost q seen _ _ => Some (q, seen)
+    end.
+
+  (* ALL inputs.  Sends: the expansion.  A thrown Exception kind, wherever the layer is (at an inserted message or at
+     the wrapped plan's own): the inserted generator on top, if any, dies with it and the exception is thrown into the
+     wrapped plan at its original yield -- what is left of the inserted messages is dropped.  Other BaseException
+     kinds leave at once.  close() / GeneratorExit kinds: [e_close]. *)
   Definition exp_resume (x : estate) (i : input) : outcome estate :=
     match x, i with
     | EStart q, Send VNone => e_host [] (qres q (Send VNone))
     | EStart _, Send _ => Raised ETypeError
+    | EStart _, Throw e => Raised e
+    | EStart _, Close => Raised EGeneratorExit
     | EPre q seen todo m post, Send _ => e_pre q seen todo m post          (* the answers to inserted messages are dropped *)
     | EOwn q seen None, Send v => e_host seen (qres q (Send v))
     | EOwn q seen (Some post), Send v => e_post q seen post v
     | EPost q seen todo saved, Send _ => e_post q seen todo saved
-    | _, _ => OutOfFuel                                                    (* not a send: outside this reference *)
+    | _, Throw e =>
+        match e_host_of x with
+        | Some (q, seen) =>
+            if is_GeneratorExit e then e_close q e
+            else if is_Exception e then e_host seen (qres q (Throw e))
+            else Raised e
+        | None => Raised e
+        end
+    | _, Close =>
+        match e_host_of x with
+        | Some (q, _) => e_close q EGeneratorExit
+        | None => Raised EGeneratorExit
+        end
     end.
 End During.
 
